@@ -14,6 +14,12 @@ CHECKS = {
     },
 }
 
+CHECKS["C14"] = {
+    "text": "Kernel of the accepted-module decision (EvalMainContext.is_authorized_path) decided two ways: a direct z3 string query generated from the method's current AST (path segments and accepted names are free strings of any length; depth 1..7, 1..8 / 1..44 accepted names) proving equivalence with the segment-prefix specification, and CrossHair symbolic execution of the real method over depth x accepted depth x filler count x prefix-confusable names. Bounded by depth and number of names; names unbounded in the z3 form.",
+    "design_ref": "DESIGN.md 5-C14",
+    "technique": "direct z3 string query generated from the method's AST + CrossHair symbolic execution of the real method",
+}
+
 NOT_APPLICABLE = {}
 
 
